@@ -6,7 +6,8 @@ ERR = {'EValue': 'EValue', 'EType': 'EType', 'ECacheIndex': 'ECacheIndex', 'ECon
        'EDeleted': 'EDeleted', 'EAssert': 'EAssert', 'EInjected': 'EInjected', 'EKey': 'EKey', 'EFuel': 'EFuel'}
 STATUS = {'created': 'SCreated', 'inserted': 'SInserted', 'updated': 'SUpdated', 'modified': 'SModified', 'marked_to_delete': 'SMarked',
           'deleted': 'SDeleted', 'cancelled': 'SCancelled', 'loaded': 'SInserted'}
-TAINTS = ['TSetBits', 'TSetIdx', 'TSetForward', 'TSetReverse', 'TRemFlag', 'TDelNested', 'TNewPk', 'TDelCreated', 'TInconsistent']
+# codes 0-2 were the Entity.set sites repaired by repo cd0fda9 (kept as placeholders so the other codes stay stable)
+TAINTS = ['retired-0', 'retired-1', 'retired-2', 'TSetReverse', 'TRemFlag', 'TDelNested', 'TNewPk', 'TDelCreated', 'TInconsistent']
 KIND = {'pk': 'KPk', 'int': 'KInt', 'ref': 'KRef', 'set': 'KSet'}
 
 
